@@ -63,6 +63,81 @@ NETS = {"heating_loop": net_heating_loop, "branched": net_branched, "gas": net_g
 THERMAL_NETS = ("heating_loop", "branched")
 
 
+def _norm_obj(v):
+    """JSON has no tuples: nested tuples/lists are the same value; enums print as their value"""
+    if isinstance(v, (list, tuple)):
+        return [_norm_obj(x) for x in v]
+    if isinstance(v, np.ndarray):
+        return [_norm_obj(x) for x in v.tolist()]
+    if v is None or (isinstance(v, float) and np.isnan(v)):
+        return "null"          # None and NaN are both "no entry"
+    return v if isinstance(v, (int, float, str, bool, type(None))) else str(v)
+
+
+def table_digest_levels(df):
+    """(exact, q15, q15n): exact bits; floats rounded to 14 decimal places; additionally inf and nan unified"""
+    out = []
+    for level in (0, 1, 2):
+        h = hashlib.sha1()
+        h.update(repr(list(df.columns)).encode())
+        h.update(repr([str(t) for t in df.dtypes]).encode())
+        h.update(repr(list(df.index)).encode() + str(df.index.dtype).encode())
+        for c in df.columns:
+            col = df[c]
+            if col.dtype.kind == "f":
+                v = np.ascontiguousarray(col.values, dtype=float)
+                if level >= 1:
+                    v = np.round(v, 14) + 0.0
+                if level >= 2:
+                    v = np.where(np.isinf(v), np.nan, v)
+                h.update(v.tobytes())
+            else:
+                h.update(repr([_norm_obj(x) for x in col.values]).encode())
+        out.append(h.hexdigest()[:12])
+    return out
+
+
+def structure_digest(df):
+    """everything but the float values: columns, dtypes, index, non-float cells, NaN pattern of float cells"""
+    h = hashlib.sha1()
+    h.update(repr(list(df.columns)).encode())
+    h.update(repr([str(t) for t in df.dtypes]).encode())
+    h.update(repr(list(df.index)).encode() + str(df.index.dtype).encode())
+    for c in df.columns:
+        col = df[c]
+        if col.dtype.kind == "f":
+            h.update(np.isnan(np.asarray(col.values, dtype=float) * 0.0).tobytes())   # where values are missing (NaN or inf)
+        else:
+            h.update(repr([_norm_obj(x) for x in col.values]).encode())
+    return h.hexdigest()[:12]
+
+
+def float_diff_class(a, b):
+    """difference class of the float cells of two tables of equal structure:
+    same | lt1e-14 (absolute difference below 1e-14: lost decimal places) | inf2nan | other"""
+    cls = "same"
+    rank = {"same": 0, "lt1e-14": 1, "inf2nan": 2, "other": 3}
+    if list(a.columns) != list(b.columns) or len(a) != len(b):
+        return "other"
+    for c in a.columns:
+        if a[c].dtype.kind != "f" or b[c].dtype.kind != "f":
+            continue
+        x = np.asarray(a[c].values, dtype=float)
+        y = np.asarray(b[c].values, dtype=float)
+        for u, v in zip(x, y):
+            if u == v or (np.isnan(u) and np.isnan(v)):
+                k = "same"
+            elif np.isinf(u) and np.isnan(v):
+                k = "inf2nan"
+            elif np.isfinite(u) and np.isfinite(v) and abs(u - v) < 1e-14:
+                k = "lt1e-14"
+            else:
+                k = "other"
+            if rank[k] > rank[cls]:
+                cls = k
+    return cls
+
+
 def table_digest(df):
     h = hashlib.sha1()
     h.update(repr(list(df.columns)).encode())
@@ -77,6 +152,39 @@ def table_digest(df):
     return h.hexdigest()[:12]
 
 
+def _attr_repr(v):
+    if isinstance(v, np.ndarray):
+        return "nd" + repr(v.tolist())
+    if isinstance(v, (pd.Series, pd.DataFrame)):
+        return "pd" + repr(v.values.tolist())
+    if callable(v):
+        return "callable"
+    import enum
+    if isinstance(v, enum.Enum):
+        return repr(str(v.value))
+    return repr(v)
+
+
+def fluid_digest(fl):
+    """name, type, and for every property: class, all plain attributes, values on a probe grid"""
+    if fl is None:
+        return "nofluid"
+    probe = np.array([280.0, 300.0, 350.0])
+    parts = [str(fl.name), str(fl.fluid_type), str(fl.is_gas)]
+    for pn in sorted(fl.all_properties):
+        pr = fl.all_properties[pn]
+        parts.append(pn + ":" + type(pr).__name__)
+        for k in sorted(vars(pr)):
+            if k.startswith("_") or k == "prop_getter":
+                continue
+            parts.append(k + "=" + _attr_repr(vars(pr)[k]))
+        try:
+            parts.append(repr(np.asarray(fl.get_property(pn, probe)).tolist()))
+        except Exception as e:  # noqa
+            parts.append(type(e).__name__)
+    return hashlib.sha1("|".join(parts).encode()).hexdigest()[:12]
+
+
 def description_digests(net):
     """opaque tokens for everything a calculation must not touch"""
     d = {}
@@ -86,17 +194,17 @@ def description_digests(net):
             continue
         if isinstance(v, pd.DataFrame):
             d[k] = table_digest(v)
-    fl = net.fluid
-    probe = np.array([280.0, 300.0, 350.0])
-    parts = [fl.name, str(fl.is_gas)]
-    for pn in sorted(fl.all_properties):
-        try:
-            parts.append(pn + ":" + repr(np.asarray(fl.get_property(pn, probe)).tolist()))
-        except Exception as e:  # noqa
-            parts.append(pn + ":" + type(e).__name__)
-    d["fluid"] = hashlib.sha1("|".join(parts).encode()).hexdigest()[:12]
+    d["fluid"] = fluid_digest(net.get("fluid"))
     st = net.get("std_types", {})
-    d["std_types"] = hashlib.sha1(repr({k: sorted(map(str, v.keys())) for k, v in st.items()}).encode()).hexdigest()[:12]
+    stp = []
+    for k in sorted(st):
+        for name in sorted(st[k], key=str):
+            v = st[k][name]
+            if isinstance(v, dict):
+                stp.append((k, str(name), sorted((a, _attr_repr(b)) for a, b in v.items())))
+            else:       # std-type objects (pumps): class + attributes
+                stp.append((k, str(name), type(v).__name__, sorted((a, _attr_repr(b)) for a, b in vars(v).items() if not a.startswith("_"))))
+    d["std_types"] = hashlib.sha1(repr(stp).encode()).hexdigest()[:12]
     u = {k: v for k, v in net.get("user_pf_options", {}).items() if k != "hyd_flag"}
     d["user_pf_options"] = hashlib.sha1(repr(sorted((k, repr(v)) for k, v in u.items())).encode()).hexdigest()[:12]
     d["meta"] = hashlib.sha1(repr((net.get("name"), str(net.get("sector")),
